@@ -1,5 +1,6 @@
 CONSTANTS
   Dims <- MCDims
+  DimSeq <- MCDimSeq
   MaxHazards = 2
 INIT Init
 NEXT Next
